@@ -201,6 +201,15 @@ def subspaces(tier):
                                     yield {'k': 'shape', 'shape': list(s), 'fault': kind, 'pos': 2, 'cont': 'none', 'opts': o, 'nonl': bool(nonl), 'long': bool(lg)}
     subs.append(('file-ends-and-long-include-names', fileends()))
 
+    def deep():
+        # long nesting chains: the position text grows with the depth and has no fixed maximum
+        for kindn in ('INC', 'MAC'):       # (repetitions multiply: two iterations per level)
+            for n in (10, 30, 40, 60, 100, 150):
+                for kind in ('unknown', 'range'):
+                    for o in ([], ['-gnuerrors'], ['-E', 'err.log'], ['-x', '-x']):
+                        yield {'k': 'shape', 'shape': [kindn] * n, 'fault': kind, 'pos': 2, 'cont': 'none', 'opts': o}
+    subs.append(('deep-chains', deep()))
+
     def undef():
         for k in range(0, D + 1):
             for s in itertools.product(KINDS, repeat=k):
@@ -218,10 +227,16 @@ def subspaces(tier):
     return subs
 
 
+def shp(shape, sep):
+    if len(shape) > 6 and len(set(shape)) == 1:
+        return '%sx%d' % (shape[0], len(shape))
+    return sep.join(shape) or 'main'
+
+
 def describe(case):
     if case['k'] == 'expect':
         return 'expect %s ; provoked %s' % (case['ann'], case['prov'])
-    return '%s fault %s pos %s cont %s opts %s%s%s' % ('>'.join(case['shape']) or 'main', case.get('fault', 'undef'), case['pos'], case.get('cont'), case.get('opts'),
+    return '%s fault %s pos %s cont %s opts %s%s%s' % (shp(case['shape'], '>'), case.get('fault', 'undef'), case['pos'], case.get('cont'), case.get('opts'),
                                                    ' (files end without newline)' if case.get('nonl') else '', ' (long include names)' if case.get('long') else '')
 
 
@@ -251,7 +266,7 @@ def evaluate(case):
     want = []
     for e in exps:
         want += [e] * e[4]
-    sg = '%s/%s' % ('+'.join(case['shape']) or 'main', case.get('fault', 'undef'))
+    sg = '%s/%s' % (shp(case['shape'], '+'), case.get('fault', 'undef'))
     if '-gnuerrors' in opts:
         got = []
         inc = []
